@@ -117,6 +117,12 @@ class ModelProperty(PropertyProtocol):
                 data=data, detail=f'Attempted to generate duplicate models with name "{class_info.name}"'
             )
             return error, schemas
+        if schemas.module_name_taken(class_info):
+            error = PropertyError(
+                data=data,
+                detail=f'Model "{class_info.name}" would be written to the module "{class_info.module_name}" of another class',
+            )
+            return error, schemas
 
         schemas = evolve(
             schemas,
